@@ -132,4 +132,43 @@ PrefixExpFrom(m, obs, p, t, acc) ==
     ELSE PrefixExpFrom(m, obs, p, t + 1, Plus(acc, Plus(XA(m, p[t], p[t + 1]), XB(m, p[t + 1], obs[t + 1]))))
 PrefixExp(m, obs, p) == PrefixExpFrom(m, obs, p, 1, Plus(XPi(m, p[1]), XB(m, p[1], obs[1])))
 PrefixMin(m, obs, t, s) == Min({PrefixExp(m, obs, p) : p \in {q \in [1..t -> XStates(m)] : q[t] = s}})
+
+\* ------------------------------------------------ closed-form family "cycle"
+\* Models too large for any enumeration (S in the hundreds) are described by a few
+\* parameters; the run carries only these, the harness builds the dense matrices from them:
+\*   transition i -> i      exponent cs        (self loop)
+\*              i -> i+1    exponent cf        (mod s)
+\*              i -> i-1    exponent cb        (mod s)
+\*              any other   exponent big
+\*   emission   eb for every state and symbol;  end exponent ee for every state
+\*   initial    0 for state s0, pbig for every other state          (-1 = probability zero)
+\* If exactly one of cs, cf, cb is the strict minimum cmin, big > cmin and pbig >= 1, then the
+\* unique optimal path starts in s0 and repeats that one move, and its exponent sum is
+\*   T * eb + (T - 1) * cmin + ee
+\* (any other path pays pbig >= 1 at the start or replaces at least one move by a strictly
+\* more expensive one).  HmmExpMC (Cyc = TRUE) proves this equal to MinExp / the arg-min set
+\* of the general definition for all small parameter values (s = 3, 4).
+CycA(p, i, j) ==
+    IF j = i THEN p.cs
+    ELSE IF j = (i + 1) % p.s THEN p.cf
+    ELSE IF j = (i + p.s - 1) % p.s THEN p.cb
+    ELSE p.big
+CycleModel(p) ==
+    [s |-> p.s, m |-> p.m,
+     a   |-> [i \in 1..p.s |-> [j \in 1..p.s |-> CycA(p, i - 1, j - 1)]],
+     b   |-> [i \in 1..p.s |-> [o \in 1..p.m |-> p.eb]],
+     pi  |-> [i \in 1..p.s |-> IF i - 1 = p.s0 THEN 0 ELSE p.pbig],
+     eps |-> [i \in 1..p.s |-> p.ee]]
+CycMin(p) == Min2(Ex(p.cs), Min2(Ex(p.cf), Ex(p.cb)))
+CycValid(p) ==
+    /\ p.s >= 3 /\ p.m >= 1 /\ p.s0 \in 0..(p.s - 1) /\ p.eb >= 0 /\ p.ee >= 0
+    /\ CycMin(p) < INF
+    /\ Cardinality({k \in {"s", "f", "b"} :
+                       Ex(CASE k = "s" -> p.cs [] k = "f" -> p.cf [] OTHER -> p.cb) = CycMin(p)}) = 1
+    /\ Ex(p.big) > CycMin(p) /\ Ex(p.pbig) >= 1
+CycStep(p) == IF Ex(p.cs) = CycMin(p) THEN 0 ELSE IF Ex(p.cf) = CycMin(p) THEN 1 ELSE p.s - 1
+ClosedPath(p, T) == [t \in 1..T |-> (p.s0 + CycStep(p) * (t - 1)) % p.s]
+ClosedExp(p, T)  == T * p.eb + (T - 1) * CycMin(p) + p.ee
+RECURSIVE Log2Ceil(_)
+Log2Ceil(n) == IF n <= 1 THEN 0 ELSE 1 + Log2Ceil((n + 1) \div 2)
 =============================================================================
